@@ -84,6 +84,7 @@ LocalName(im) == IF im.alias # "" THEN im.alias ELSE LastSeg(im.path)
 \* neither shadows an import nor is shadowed by a parameter (`func (x T) M(x int)` is not a Go program).
 GoInQuant(f) ==
   /\ \A d \in Range(GoMethods(f)) : d.recv \in GoTypeNames(f)
+  /\ Range(NamesOf(GoMethods(f))) \cap Range(NamesOf(GoFuncs(f))) = {}     \* (keeps Free_GoMethodMembers unambiguous)
   /\ Distinct(NamesOf(GoTypes(f)) \o NamesOf(GoFuncs(f)))
   /\ \A t \in GoTypeNames(f) : Distinct(NamesOf(MethodsOn(f, t)))
   /\ \A d \in Range(GoMethods(f)) : /\ d.rv \notin {LocalName(im) : im \in Range(f.imports)}
@@ -144,14 +145,17 @@ GoTypeDiff(f, t, e, level) ==
       opt  == [i \in DOMAIN emb |-> ""] \o [i \in DOMAIN emb |-> emb[i].base]
       ms   == MethodsOn(f, t.name)
       w    == level \o t.name
-  IN  ListingDiff(NamesOf(e.props), req, opt, "go-member-missing", "go-member-extra", w \o ".") \cup
+      \* Free_GoIfaceMethodPlace: the method set of an interface may be shown among the members or among the methods
+      members == IF t.k = "iface" THEN NamesOf(e.props) \o NamesOf(e.methods) ELSE NamesOf(e.props)
+      methods == IF t.k = "iface" THEN <<>> ELSE NamesOf(e.methods)
+  IN  ListingDiff(members, req, opt, "go-member-missing", "go-member-extra", w \o ".") \cup
       (IF t.k = "struct"
        THEN {Item("go-field-type", w \o "." \o flat[i].name, {}) :
                i \in {x \in DOMAIN flat : /\ flat[x].name # "" /\ Occ(NamesOf(flat), flat[x].name) = 1
                                           /\ Occ(NamesOf(e.props), flat[x].name) = 1
                                           /\ \E p \in Range(e.props) : p.name = flat[x].name /\ p.type \notin AllowedType(flat[x].f)}}
        ELSE {}) \cup
-      ListingDiff(NamesOf(e.methods), NamesOf(ms), <<>>, "go-method-missing", "go-method-extra", w \o ".") \cup
+      ListingDiff(methods, NamesOf(ms), <<>>, "go-method-missing", "go-method-extra", w \o ".") \cup
       UNION {CallDiff(f, ms[i], CHOOSE m \in Range(e.methods) : m.name = ms[i].name, w \o "." \o ms[i].name) :
                i \in {x \in DOMAIN ms : Occ(NamesOf(e.methods), ms[x].name) = 1}}
 
@@ -186,7 +190,9 @@ DiffGoFile(f, o, w) ==
   ELSE IF o.panic THEN {Item("panic", w, {})}         \* "neither front-end crashes on a file its parser accepts"
   ELSE EntriesDiff(GoTypes(f), o.types, "go-type-missing", "go-type-duplicated", "go-type-undeclared", w,
                    LAMBDA t, e : GoTypeDiff(f, t, e, w)) \cup
-       EntriesDiff(GoFuncs(f), o.funcs, "go-func-missing", "go-func-duplicated", "go-func-undeclared", w,
+       \* Free_GoMethodMembers: whether methods also appear in the file's list of function members is not promised
+       EntriesDiff(GoFuncs(f), SelectSeq(o.funcs, LAMBDA e : e.name \in Range(NamesOf(GoFuncs(f))) \/ e.name \notin Range(NamesOf(GoMethods(f)))),
+                   "go-func-missing", "go-func-duplicated", "go-func-undeclared", w,
                    LAMBDA d, e : ParamDiff(d, e, w \o d.name) \cup CallDiff(f, d, e, w \o d.name)) \cup
        GoImportDiff(f, o) \cup GoMemberDiff(f, o)
 
@@ -203,6 +209,7 @@ PyNested(f) == PyNestedOf(PyFuncs(f)) \o Concat([i \in DOMAIN PyClasses(f) |-> P
 \* the quantifier: imports, (decorated) classes with methods, (decorated) functions, nested defs; unambiguous names
 PyInQuant(f) ==
   /\ Distinct(NamesOf(PyClasses(f)) \o NamesOf(PyFuncs(f)) \o PyNested(f))
+  /\ \A c \in Range(PyClasses(f)) : Range(NamesOf(c.methods)) \cap Range(NamesOf(PyFuncs(f))) = {}
   /\ \A c \in Range(PyClasses(f)) : Distinct(NamesOf(c.methods) \o PyNested(f))
 
 \* Free_PyDecoratorsOfFunctions: the statement promises the decorators of classes; for a function or method only
@@ -266,13 +273,17 @@ PyImportDiff(f, o, w) ==
 
 \* The listing is promised "for any Python module": a module that is Python (valid by construction of the
 \* renderer) but on which the shipped lexer/parser reports syntax errors is still judged. Only the crash
-\* clause is limited to "a file its parser accepts".
+\* clause is limited to "a file its parser accepts": a crash on a module the parser rejected is not reported
+\* as a crash, but as what it also is - a module whose declarations are not listed.
 DiffPyFile(f, o, w) ==
   IF ~PyInQuant(f) THEN {}
-  ELSE IF o.panic THEN (IF o.accepts THEN {Item("panic", w, {})} ELSE {})
+  ELSE IF o.panic THEN {Item(IF o.accepts THEN "panic" ELSE "py-module-not-listed", w, {})}   \* no model at all
   ELSE EntriesDiff(PyClasses(f), o.types, "py-class-missing", "py-class-duplicated", "py-class-undeclared", w,
                    LAMBDA c, e : PyClassDiff(c, e, w, PyNested(f))) \cup
-       ListingDiff(NamesOf(o.funcs), NamesOf(PyFuncs(f)), PyNested(f), "py-func-missing", "py-func-extra", w) \cup
+       \* Free_PyMethodMembers: whether methods also appear among the module-level function members is not promised
+       ListingDiff(NamesOf(o.funcs), NamesOf(PyFuncs(f)),
+                   PyNested(f) \o Concat([i \in DOMAIN PyClasses(f) |-> NamesOf(PyClasses(f)[i].methods)]),
+                   "py-func-missing", "py-func-extra", w) \cup
        UNION {ForeignDecos(PyFuncs(f)[i], CHOOSE e \in Range(o.funcs) : e.name = PyFuncs(f)[i].name, w \o PyFuncs(f)[i].name) :
                 i \in {x \in DOMAIN PyFuncs(f) : Occ(NamesOf(o.funcs), PyFuncs(f)[x].name) = 1}} \cup
        PyImportDiff(f, o, w)
@@ -299,7 +310,7 @@ DiffCommon(in, obs) ==
              /\ Distinct(NamesOf(allTypes) \o NamesOf(allFuncs) \o allNested)
       fileOf(t) == CHOOSE i \in DOMAIN fs : t \in Range(TypesOf(in.lang, fs[i]))
   IN  IF ~inq THEN {}
-      ELSE IF oc.panic THEN (IF oc.accepts THEN {Item("panic", "common", {})} ELSE {})
+      ELSE IF oc.panic THEN {Item(IF oc.accepts THEN "panic" ELSE "common-not-listed", "common", {})}
       ELSE LET raw == EntriesDiff(allTypes, typeEntries, "common-type-missing", "common-type-duplicated",
                                   "common-type-undeclared", "common:",
                                   LAMBDA t, e : IF in.lang = "go" THEN GoTypeDiff(fs[fileOf(t)], t, e, "common:")
